@@ -24,14 +24,10 @@ theorem joinWith_append (sep : String) (a b : List String) (ha : a ≠ []) (hb :
       simp only [List.cons_append, joinWith] at this ⊢
       rw [this]; simp [String.append_assoc]
 
-theorem items_ne_nil (ctx : Option BinOp) (e : Exp α) : items ctx e ≠ [] := by
+theorem items_ne_nil (ctx : Option (BinOp × Bool)) (e : Exp α) : items ctx e ≠ [] := by
   cases e with
-  | bin o l r => rcases items_bin ctx o l r with h | h | h <;> rw [h] <;> simp
+  | bin o l r => rcases items_bin ctx o l r with h | h <;> rw [h] <;> simp
   | _ => simp [items]
-
-theorem showE_nonbin (tok : α → String) (ctx : Option BinOp) (e : Exp α) (h : ∀ o l r, e ≠ .bin o l r) :
-    showE tok ctx e = showE tok none e := by
-  cases e <;> first | exact absurd rfl (h _ _ _) | simp [showE]
 
 theorem showE_eq_renderItems_aux (tok : α → String) (n : Nat) :
     ∀ (e : Exp α), skel e ≤ n → ∀ ctx, showE tok ctx e = renderItems tok (items ctx e) := by
@@ -46,56 +42,31 @@ theorem showE_eq_renderItems_aux (tok : α → String) (n : Nat) :
     cases e with
     | bin o l r =>
       simp only [skel] at hs
-      have hl := ih l (by omega) (some o)
-      have hr := ih r (by omega) (some o)
-      have hnl : (items (some o) l).map (renderItem tok) ≠ [] := by simpa using items_ne_nil (some o) l
-      have hnr : (items (some o) r).map (renderItem tok) ≠ [] := by simpa using items_ne_nil (some o) r
-      have plain : showE tok (some o) l ++ " " ++ binOpStr o ++ " " ++ showE tok (some o) r =
-          renderItems tok (items (some o) l ++ [.infix o] ++ items (some o) r) := by
+      have hl := ih l (by omega) (some (o, false))
+      have hr := ih r (by omega) (some (o, true))
+      have hnl : (items (some (o, false)) l).map (renderItem tok) ≠ [] := by simpa using items_ne_nil (some (o, false)) l
+      have hnr : (items (some (o, true)) r).map (renderItem tok) ≠ [] := by simpa using items_ne_nil (some (o, true)) r
+      have plain : showE tok (some (o, false)) l ++ " " ++ binOpStr o ++ " " ++ showE tok (some (o, true)) r =
+          renderItems tok (items (some (o, false)) l ++ [.infix o] ++ items (some (o, true)) r) := by
         simp only [renderItems, List.map_append, List.map_cons, List.map_nil, renderItem]
         rw [List.append_assoc, joinWith_append _ _ _ hnl (by simp), List.singleton_append,
-          show joinWith " " (binOpStr o :: (items (some o) r).map (renderItem tok)) =
-            binOpStr o ++ " " ++ joinWith " " ((items (some o) r).map (renderItem tok)) by
-              cases hm : (items (some o) r).map (renderItem tok) with
+          show joinWith " " (binOpStr o :: (items (some (o, true)) r).map (renderItem tok)) =
+            binOpStr o ++ " " ++ joinWith " " ((items (some (o, true)) r).map (renderItem tok)) by
+              cases hm : (items (some (o, true)) r).map (renderItem tok) with
               | nil => exact absurd hm hnr
               | cons y ys => simp [joinWith]]
         rw [hl, hr]; simp [renderItems, String.append_assoc]
       cases ctx with
       | none => simpa [showE, items] using plain
-      | some last =>
-        have grp : "(" ++ showE tok (some o) l ++ " " ++ binOpStr o ++ " " ++ showE tok (some o) r ++ ")" =
-            renderItems tok [.group none (.bin o l r)] := by
-          simp [renderItems, renderItem, joinWith, showE, String.append_assoc]
-        by_cases hsub : last = .sub
-        · subst hsub
-          by_cases hp : Gen.binPrec o < Gen.binPrec BinOp.sub
-          · simpa [showE, items, hp] using grp
-          · by_cases hleaf : isLeaf r = true
-            · simpa [showE, items, hp, hleaf] using plain
-            · simp only [showE, items, hp, hleaf, if_false, Bool.false_eq_true]
-              simp only [renderItems, List.map_append, List.map_cons, List.map_nil, renderItem]
-              rw [List.append_assoc, joinWith_append _ _ _ hnl (by simp)]
-              rw [hl]
-              simp [renderItems, joinWith, String.append_assoc]
-              rfl
-        · have hs' : last = BinOp.sub → False := hsub
-          by_cases hp : Gen.binPrec o < Gen.binPrec last
-          · have e1 : showE tok (some last) (.bin o l r) =
-                "(" ++ showE tok (some o) l ++ " " ++ binOpStr o ++ " " ++ showE tok (some o) r ++ ")" := by
-              rw [showE]; simp [hp]; exact hs'
-            have e2 : items (some last) (.bin o l r) = [.group none (.bin o l r)] := by
-              simp only [items, hp, if_true]
-            rw [e1, e2]; exact grp
-          · have e1 : showE tok (some last) (.bin o l r) =
-                showE tok (some o) l ++ " " ++ binOpStr o ++ " " ++ showE tok (some o) r := by
-              rw [showE]; simp [hp]; exact hs'
-            have e2 : items (some last) (.bin o l r) = items (some o) l ++ [.infix o] ++ items (some o) r := by
-              simp only [items, hp, if_false]
-            rw [e1, e2]; exact plain
+      | some p =>
+        obtain ⟨parent, isRhs⟩ := p
+        by_cases hp : parensRule parent isRhs o = true
+        · simp [showE, items, hp, renderItems, renderItem, joinWith, String.append_assoc]
+        · simpa [showE, items, hp] using plain
     | _ => simp [items, renderItems, renderItem, joinWith, showE]
 
 /-- `Display` text = rendering of the item stream. -/
-theorem showE_eq_renderItems (tok : α → String) (ctx : Option BinOp) (e : Exp α) :
+theorem showE_eq_renderItems (tok : α → String) (ctx : Option (BinOp × Bool)) (e : Exp α) :
     showE tok ctx e = renderItems tok (items ctx e) :=
   showE_eq_renderItems_aux tok (skel e) e (Nat.le_refl _) ctx
 
